@@ -16,7 +16,7 @@ from common import sh2
 
 LEVEL = "other"
 MANIFEST = {
-    "technique": "Coq proof of schedule independence from operation footprints + footprint table of the API ops tied to the code by "
+    "technique": "Coq proof of schedule independence from operation footprints + footprint table of the API ops (19 kinds incl. the lazy-mdat path) tied to the code by "
                  "(i) go/types source-fact extractors re-run on every check and fed to vm_compute theorems: package-level variables and "
                  "every function that can change them; a call graph (static, class-hierarchy, func-value-by-signature, callback edges) "
                  "giving for every table operation and every exported function the package-level variables reachable from it; an "
@@ -32,7 +32,12 @@ MANIFEST = {
                   "C20_api_schedule_independence); C20_inplace_guard_exact: for all arguments/goroutines/aliasing states an in-place "
                   "operation writes its operand's payload location and the guard is exactly ownership of it; C20_sr_inplace_refuted / "
                   "C20_sr_inplace_all_mutators: DecodeFileSR followed by DecryptSegment / EncryptFragment / ConvertSampleToByteStream "
-                  "writes the caller's shared input. On facts REGENERATED from the sources on every run: C20_pkg_vars_ok (every writer "
+                  "writes the caller's shared input; C20_lazy_path_private (no hypothesis: after every program prefix, for every source, goroutine and "
+                  "object ids, DecodeFile with DecModeLazyMdat followed by MdatBox.ReadData is local without any guard, writes no shared "
+                  "input, yields bytes the goroutine owns, and every in-place operation of the table on them is allowed, local and "
+                  "writes no input) and C20_read_data_in_memory_view (the other branch of ReadData: after DecodeFileSR of a shared input "
+                  "the bytes read are a view of that input and every in-place operation on them fails the guard and writes it). "
+                  "On facts REGENERATED from the sources on every run: C20_pkg_vars_ok (every writer "
                   "of a package-level variable of bits/avc/hevc/sei/aac/av1/mp4 is an initialiser, init, SetBoxDecoder or "
                   "RemoveBoxDecoder; no sync/atomic/math-rand import); C20_api_reach_ok + C20_api_reach_covers (for every operation of "
                   "the table, with all arguments: every package-level variable reachable through the call graph from the library "
@@ -343,7 +348,7 @@ def run(ctx):
         ctx.notes["recorded_finding_not_reproduced"] = True
         ctx.log("NOTE: the recorded finding (in-place op on SliceReader-decoded shared input) was not reproduced in this run")
     ctx.cov["rule"] = ("corr: %d generated sequential op programs (decode via Reader / SliceReader of ~50 shared inputs (clear and cenc/cbcs-protected init, media and init+media buffers for avc/hevc/aac; 8/16-byte per-sample IVs, 8/16-byte constant IVs, seig sample groups) or of own buffers, Info, "
-                       "Encode, EncodeSW, GetFullSamples, InitProtect+EncryptFragment cenc/cbcs, DecryptInit+DecryptSegment (init and media in one or in separate objects, any decode path for either; DecryptInfo own or shared between goroutines), NAL conversions, AddCompatibleBrands/AddSampleData appends; inputs also 38 dac3/dec3/ac-3/ec-3 configurations and a greedy box-type cover of the repository's sample files), "
+                       "Encode, EncodeSW, GetFullSamples, lazy decode (DecModeLazyMdat) + MdatBox.ReadData/CopyData through an own ReadSeeker over the shared bytes (both branches of ReadData: lazy -> fresh buffer, in memory -> view), InitProtect+EncryptFragment cenc/cbcs, DecryptInit+DecryptSegment (init and media in one or in separate objects, any decode path for either; DecryptInfo own or shared between goroutines), NAL conversions, AddCompatibleBrands/AddSampleData appends; inputs also 38 dac3/dec3/ac-3/ec-3 configurations and a greedy box-type cover of the repository's sample files), "
                        "after every op: aliasing of the target object by pointer range over every reachable []byte, byte comparison of every shared input with its pristine copy; "
                        "search: %d independent rounds of 2-16 goroutines (random start skew, Gosched injection) + %d rounds of the recorded "
                        "scenario; every 4th round: each goroutine decodes and inspects (Info, ChannelInfo, Encode) DIFFERENT AC-3/E-AC-3 boxes or zoo files; goroutine t uses key t%%3; oracles: race detector (%s), per-op and final digests vs the sequential run on private copies, input hashes, ChannelInfo vs tables written from the standard, first-seen result of every program prefix (history); "
